@@ -60,7 +60,7 @@ type Program struct {
 
 // Fault is a sanitizer report.
 type Fault struct {
-	Kind string // oob | uninit-stack | bad-jump | bad-opcode | step-limit | bad-helper | bad-pointer
+	Kind string // oob | uninit-stack | uninit-stack-helper | bad-jump | bad-opcode | step-limit | bad-helper | bad-pointer
 	Prog string
 	PC   int
 	Msg  string
@@ -78,7 +78,16 @@ type VM struct {
 	// Trace of the programs entered (names), for witnesses.
 	Chain []string
 	Steps int
+	// LenientUninit: a read of never-written stack bytes does not end the run; it is recorded in
+	// UninitReads and the read sees the poison the frame was filled with.  (A tail-called program gets a
+	// new frame whose content is unspecified; that one JIT happens to reuse the caller's frame is not
+	// something a program may rely on.)
+	LenientUninit bool
+	UninitReads   []Fault
 }
+
+// PoisonByte fills every fresh stack frame.
+const PoisonByte = 0xa5
 
 type region struct {
 	base uint64
@@ -124,7 +133,12 @@ func (r *run) load(addr uint64, size int, pc int) (uint64, *Fault) {
 	if rg.init != nil {
 		for i := 0; i < size; i++ {
 			if !rg.init[off+i] {
-				return 0, &Fault{Kind: "uninit-stack", Prog: r.prog.Name, PC: pc, Msg: fmt.Sprintf("read of stack byte fp%+d that was never written", off+i-stackSize)}
+				f := &Fault{Kind: "uninit-stack", Prog: r.prog.Name, PC: pc, Msg: fmt.Sprintf("read of stack byte fp%+d that was never written", off+i-stackSize)}
+				if !r.vm.LenientUninit {
+					return 0, f
+				}
+				r.vm.noteUninit(f)
+				break
 			}
 		}
 	}
@@ -171,11 +185,22 @@ func (r *run) bytes(addr uint64, size int, pc int) ([]byte, *Fault) {
 	if rg.init != nil {
 		for i := 0; i < size; i++ {
 			if !rg.init[off+i] {
-				return nil, &Fault{Kind: "uninit-stack", Prog: r.prog.Name, PC: pc, Msg: fmt.Sprintf("helper reads stack byte fp%+d that was never written", off+i-stackSize)}
+				f := &Fault{Kind: "uninit-stack-helper", Prog: r.prog.Name, PC: pc, Msg: fmt.Sprintf("helper argument of %d bytes at fp%+d includes stack byte fp%+d that was never written in this frame", size, off-stackSize, off+i-stackSize)}
+				if !r.vm.LenientUninit {
+					return nil, f
+				}
+				r.vm.noteUninit(f)
+				break
 			}
 		}
 	}
 	return rg.mem[off : off+size], nil
+}
+
+func (vm *VM) noteUninit(f *Fault) {
+	if len(vm.UninitReads) < 8 {
+		vm.UninitReads = append(vm.UninitReads, *f)
+	}
 }
 
 func sizeOf(op byte) int {
@@ -201,12 +226,16 @@ func (vm *VM) Run(entry *Program, ctx []byte) (ret uint64, fault *Fault) {
 	r.ctx = region{base: baseCtx, mem: ctx, name: "context"}
 	vm.Chain = vm.Chain[:0]
 	vm.Steps = 0
+	vm.UninitReads = nil
 	prog := entry
 	tailCalls := 0
 restart:
 	// A tail call keeps nothing but the context: fresh stack, fresh registers (the callee sees R1=ctx).
 	r.prog = prog
 	r.stack = region{base: baseStack, mem: make([]byte, stackSize), init: make([]bool, stackSize), name: "stack"}
+	for i := range r.stack.mem {
+		r.stack.mem[i] = PoisonByte
+	}
 	r.values = nil
 	r.regions = []*region{&r.stack, &r.ctx}
 	r.regs = [11]uint64{}
